@@ -42,6 +42,7 @@ type vfProfile struct {
 	Gen        func(r *rand.Rand, tier string) *vfPlan
 	Nontrivial func(res *vfResult) bool
 	Rule       string
+	Expand     func(base *vfPlan, res *vfResult) []*vfPlan // derived plans enumerating the fault positions of a base history
 	Setup      func(w *vfWorld) // after build, before the plan (observers, extra state)
 	Final      func(w *vfWorld) // after the plan (history-level oracles)
 }
@@ -134,6 +135,36 @@ func TestVF(t *testing.T) {
 				res.Log = nil
 			}
 			emit(res)
+			if prof.Expand != nil && res.Infra == "" {
+				for _, dp := range prof.Expand(plan, res) {
+					if job.Deadline > 0 && vfRealNow() > job.Deadline+120 {
+						break
+					}
+					dp.Prop, dp.Seed = job.Prop, seed
+					dr := vfRunPlan(t, dp, false)
+					dr.Variant = dp.Variant
+					for _, v := range dr.Violations {
+						if v.Prop != job.Prop {
+							continue
+						}
+						if !shrunk[v.Key] && job.Shrink > 0 && !known[v.Key] {
+							shrunk[v.Key] = true
+							min, runs := vfShrink(t, dp, v, job.Shrink)
+							min.Class, min.Key, min.Expect = v.Class, v.Key, v.Detail
+							dr.Plan, dr.ShrunkFrom, dr.ShrunkRuns = min, len(dp.Steps), runs
+						} else {
+							q := *dp
+							q.Class, q.Key, q.Expect = v.Class, v.Key, v.Detail
+							dr.Plan = &q
+						}
+						break
+					}
+					if len(dr.Violations) == 0 {
+						dr.Plan, dr.Log = nil, nil
+					}
+					emit(dr)
+				}
+			}
 		}
 	}
 }
@@ -147,21 +178,35 @@ func vfRealNow() int64 {
 func vfRunPlan(t *testing.T, plan *vfPlan, keepLog bool) (res *vfResult) {
 	res = &vfResult{Seed: plan.Seed, Prop: plan.Prop, Plan: plan}
 	prof := vfProfiles[plan.Prop]
+	if !vfRaceBuild {
+		cryptotest.SetGlobalRandom(t, uint64(plan.Seed)*2654435761+17)
+	}
+	defer func() {
+		res.HistHash = vfHash(strings.Join(res.Log, "\n"))
+		sort.Strings(res.Cells)
+		if prof != nil && prof.Nontrivial != nil {
+			res.Nontrivial = prof.Nontrivial(res)
+		}
+		if !keepLog && len(res.Violations) == 0 {
+			res.Log = nil
+		}
+	}()
 	defer func() {
 		if r := recover(); r != nil {
 			msg := fmt.Sprint(r)
 			if strings.Contains(msg, "deadlock: main bubble goroutine has exited") {
 				// goroutines with no exit path (e.g. event recorder loops) remain; accepted
+				if os.Getenv("VF_DEBUG_LEAK") != "" {
+					fmt.Fprintln(os.Stderr, "LEAK:", msg)
+				}
+				res.LeakedBubble = true
 				return
 			}
 			res.Infra = "panic: " + msg + "\n" + string(debug.Stack())
 		}
 	}()
-	if !vfRaceBuild {
-		cryptotest.SetGlobalRandom(t, uint64(plan.Seed)*2654435761+17)
-	}
 	synctest.Test(t, func(t *testing.T) {
-		w := &vfWorld{t: t, prop: plan.Prop, cfg: plan.Cfg, res: res,
+		w := &vfWorld{t: t, prop: plan.Prop, cfg: plan.Cfg, res: res, cacheSynced: map[string]bool{},
 			sessions: map[string]*vfSession{}, tokens: map[string]*vfSoftToken{}, oldPassword: map[string]string{}}
 		if err := w.build(); err != nil {
 			res.Infra = "build: " + err.Error()
@@ -196,14 +241,6 @@ func vfRunPlan(t *testing.T, plan *vfPlan, keepLog bool) (res *vfResult) {
 		}
 		w.teardown()
 	})
-	res.HistHash = vfHash(strings.Join(res.Log, "\n"))
-	sort.Strings(res.Cells)
-	if prof != nil && prof.Nontrivial != nil {
-		res.Nontrivial = prof.Nontrivial(res)
-	}
-	if !keepLog && len(res.Violations) == 0 {
-		res.Log = nil
-	}
 	return res
 }
 
